@@ -239,6 +239,38 @@ class Repo:
             raise AnalysisError(f"anchor vanished: function pvl/{module}.py:{name}")
         return m.functions[name]
 
+    # -- the same lookups with private helpers read in place (vsa.inline.inline_all): for the rules that read one
+    #    function's shape or path conditions; the path engines (token protocol, languages) follow calls themselves
+    def full(self, cname, meth):
+        fn = self.method(cname, meth)
+        key = ("m", cname, meth)
+        cache = self.__dict__.setdefault("_full_cache", {})
+        if key not in cache:
+            from .inline import inline_all
+            cache[key] = inline_all(self, cname, fn, module=self.classes[cname].module.name)
+        return cache[key]
+
+    def full_function(self, module, name):
+        fn = self.function(module, name)
+        key = ("f", module, name)
+        cache = self.__dict__.setdefault("_full_cache", {})
+        if key not in cache:
+            from .inline import inline_all
+            cache[key] = inline_all(self, None, fn, module=module)
+        return cache[key]
+
+    def full_resolved(self, cname, meth, after=None):
+        """(defining class, FunctionDef with helpers read in place) through the MRO"""
+        c, fn = self.resolve_method(cname, meth, after=after)
+        if fn is None:
+            return c, fn
+        key = ("r", c, meth)
+        cache = self.__dict__.setdefault("_full_cache", {})
+        if key not in cache:
+            from .inline import inline_all
+            cache[key] = inline_all(self, c, fn, module=self.classes[c].module.name)
+        return c, cache[key]
+
     def method(self, cname, meth):
         ci = self.cls(cname)
         if meth not in ci.methods:
